@@ -24,7 +24,13 @@ THEOREMS = ["C13_limits_never_exceeded", "C13_within_limits", "C13_counters_exac
             "C13_below_limit_unaffected", "C13_capacity_usable", "C13_free_connection", "C13_free_incomplete_by_disconnect",
             "C13_free_incomplete_by_hello", "C13_free_name", "C13_free_rule", "C13_free_reply_by_answer",
             "C13_free_reply_by_timeout", "C13_free_reply_by_callee_disconnect",
-            "C13_size_test", "C13_oversize_only_sender", "C13_fitting_message_harmless"]
+            "C13_size_test", "C13_oversize_only_sender", "C13_fitting_message_harmless",
+            # configuration reloads
+            "C13_reload_full_statement_refuted", "C13_never_grows_across_reloads", "C13_reload_invariant", "C13_step_never_grows",
+            "C13_never_aborts_without_reload", "C13_abort_only_in_accept", "C13_never_aborts_across_reloads",
+            "C13_step_never_aborts_across_reloads", "C13_accept_follows_configuration", "C13_accept_follows_flag", "C13_flag_refreshed_when_count_changes",
+            "C13_size_limit_follows_configuration_refuted", "C13_oversize_by_own_maximum", "C13_fitting_by_own_maximum",
+            "C13_maxmsg_fixed_at_accept", "C13_accepted_gets_configured_maximum"]
 
 NPROC = vlib.NPROC
 NAMES = ["com.example.A", "com.example.B", "org.x.y-z", "a.b", "c.d", "e.f"]
@@ -55,23 +61,33 @@ def lim(completed=BIG, per_user=BIG, incomplete=BIG, names=BIG, rules=BIG, repli
 # ---------------------------------------------------------------------------
 class Shadow:
     """just enough bookkeeping for the generators to name connections that exist (never used as an oracle:
-    histories are cut where the model calls an event ill-formed)"""
+    histories are cut where the model calls an event ill-formed or the daemon aborts)"""
 
     def __init__(self, limits):
-        self.lim = limits
+        self.lim = tuple(limits)
         self.nxt = 0
-        self.alive, self.active, self.authed, self.uid = [], set(), set(), {}
+        self.alive, self.active, self.authed, self.uid, self.maxmsg = [], set(), set(), {}, {}
+        self.watches = True
+        self.dead = False
 
     def n_inc(self):
         return sum(1 for c in self.alive if c not in self.active)
 
+    def recheck(self):
+        self.watches = self.n_inc() < self.lim[2]
+
     def connect(self, u):
-        if self.n_inc() >= self.lim[2]:
+        if not self.watches:
+            return None
+        if self.n_inc() + 1 > self.lim[2]:
+            self.dead = True            # the daemon's assertion
             return None
         c = self.nxt
         self.nxt += 1
         self.alive.append(c)
         self.uid[c] = u
+        self.maxmsg[c] = self.lim[6]
+        self.recheck()
         return c
 
     def hello(self, c):
@@ -79,18 +95,26 @@ class Shadow:
             nu = sum(1 for x in self.active if self.uid[x] == self.uid[c])
             if len(self.active) < self.lim[0] and nu < self.lim[1]:
                 self.active.add(c)
+                self.recheck()
 
     def drop(self, c):
         if c in self.alive:
+            was_active = c in self.active
             self.alive.remove(c)
             self.active.discard(c)
             self.authed.discard(c)
+            if not was_active:
+                self.recheck()
 
     def apply(self, e):
         """effect of an already formed event (targeted histories)"""
         k, parts = e[0], e[1:].split(",")
         if k == "C":
             return self.connect(int(parts[0]))
+        if k == "G":
+            self.lim = tuple(int(x) for x in parts)
+            self.recheck()              # bus_context_reload_config re-evaluates the listening flag
+            return None
         if k in "QNS":
             return None
         c = int(parts[0])
@@ -102,9 +126,13 @@ class Shadow:
             self.drop(c)
         elif k in "KEY" and c not in self.active:
             self.drop(c)
-        elif k == "M" and int(parts[1]) > self.lim[6]:
+        elif k == "M" and int(parts[1]) > self.maxmsg.get(c, self.lim[6]):
             self.drop(c)
         return None
+
+
+def G(l):
+    return "G" + ",".join(str(x) for x in l)
 
 
 def with_auth(limits, ev):
@@ -123,7 +151,57 @@ def with_auth(limits, ev):
 
 
 def gen_targeted():
-    return [(l, with_auth(l, ev)) for l, ev in gen_targeted_raw()] + gen_targeted_auth()
+    return [(l, with_auth(l, ev)) for l, ev in gen_targeted_raw()] + gen_targeted_auth() + gen_targeted_reload()
+
+
+def gen_targeted_reload():
+    """the configuration is reloaded in mid-history: every count sits at, one below or one above the new limit"""
+    out = []
+    for v in (1, 2, 3):
+        # completed connections: v+1 registered, limit lowered to v: nobody is thrown out, nobody gets in until two have left
+        ev = ["C0", "U0", "H0"]
+        for i in range(1, v + 1):
+            ev += ["C%d" % UIDS[i % 4], "U%d" % i, "H%d" % i]
+        ev += ["C1", "U%d" % (v + 1), G(lim(completed=v)), "H%d" % (v + 1), "N", "D1", "H%d" % (v + 1), "C1", "U%d" % (v + 2)]
+        if v > 1:
+            ev += ["D2", "H%d" % (v + 1), "H%d" % (v + 2), "N"]
+        ev += [G(lim(completed=v + 2)), "H%d" % (v + 1), "H%d" % (v + 2), "N"]
+        out.append((lim(completed=v + 1), ev))
+        # per user
+        ev = ["C0", "U0", "H0"]
+        for i in range(1, v + 2):
+            ev += ["C1", "U%d" % i, "H%d" % i]
+        ev += ["C1", "U%d" % (v + 2), G(lim(per_user=v)), "H%d" % (v + 2), "D1", "H%d" % (v + 2), "D2", "H%d" % (v + 2), "C2", "U%d" % (v + 3), "H%d" % (v + 3), "N"]
+        out.append((lim(per_user=v + 1), ev))
+        # names / rules / replies: lowered below what a connection holds, then raised again
+        ev = ["C0", "U0", "H0", "C0", "U1", "H1"] + [R(1, NAMES[i]) for i in range(v + 1)] + ["A1,%d" % (1 + i % 4) for i in range(v + 1)]
+        ev += ["K1,0,%d,0,0" % (1000 + i) for i in range(v + 1)]
+        ev += [G(lim(names=v + 1, rules=v, replies=v)), R(1, NAMES[4]), "A1,1", "K1,0,1100,0,0", R(1, NAMES[0], 1), L(1, NAMES[0]), R(1, NAMES[4]),
+               "V1,1", "A1,2", "Y0,1,1000", "K1,0,1101,0,0", L(1, NAMES[1]), R(1, NAMES[4]), "V1,%d" % (2 if v > 1 else 1), "A1,3", "Y0,1,1001" if v > 0 else "N", "K1,0,1102,0,0",
+               G(lim()), R(1, NAMES[5]), "A1,4", "K1,0,1103,0,0", "N", "E0,1", "E0,2"]
+        out.append((lim(names=v + 2, rules=v + 1, replies=v + 1), ev))
+        # raised while paused: the reload resumes accepting (before /repo 577eae6: still waiting until the count changed)
+        ev = ["C0", "U0", "H0"] + ["C1"] * v + ["C1", G(lim(incomplete=v + 2)), "C1", "C1", "D1", "C1", "C1", "C1", "N"]
+        out.append((lim(incomplete=v), ev))
+        ev = ["C0", "U0", "H0"] + ["C1"] * v + ["C1", G(lim(incomplete=v + 1)), "C1", "U1", "H1", "C1", "C1", "C1", "N"]
+        out.append((lim(incomplete=v), ev))
+        # lowered while accepting, but still above the count: fine
+        ev = ["C0", "U0", "H0"] + ["C1"] * v + [G(lim(incomplete=v + 1)), "C1", "C1", "D1", "C1", "N"]
+        out.append((lim(incomplete=v + 3), ev))
+        # lowered to / below the count while accepting: the reload pauses accepting (before /repo 577eae6 the next accept tripped the daemon's assertion)
+        ev = ["C0", "U0", "H0"] + ["C1"] * v + [G(lim(incomplete=v)), "C1"]
+        out.append((lim(incomplete=v + 2), ev))
+        ev = ["C0", "U0", "H0"] + ["C1"] * (v + 1) + [G(lim(incomplete=v)), "N", "C1"]
+        out.append((lim(incomplete=v + 2), ev))
+        # lowered to the count, then the count falls before anybody connects: no abort
+        ev = ["C0", "U0", "H0"] + ["C1"] * (v + 1) + [G(lim(incomplete=v)), "D1", "C1", "D2", "C1", "C1", "N"]
+        out.append((lim(incomplete=v + 2), ev))
+    # message size: older connections keep the maximum they were accepted with, either way
+    for old, new in ((1000, 600), (600, 1000)):
+        for size in (600, 601, 800, 1000, 1001):
+            ev = ["C0", "U0", "H0", "C1", "U1", "H1", "C2", "U2", G(lim(msg=new)), "C1", "U3", "H3", "M1,%d" % size, "M3,%d" % size, "M2,%d" % size, "N", "M0,600"]
+            out.append((lim(msg=old), ev))
+    return out
 
 
 def gen_targeted_auth():
@@ -271,7 +349,16 @@ def gen_random(rnd, length):
     def forget(c):
         pending[:] = [p for p in pending if p[0] != c and p[1] != c]
 
+    reloads = rnd.random() < 0.4
     for _ in range(length):
+        if sh.dead:
+            break
+        if reloads and rnd.random() < 0.08:
+            nl = list(sh.lim)
+            for k in rnd.sample(range(7), rnd.choice((1, 1, 2, 3))):
+                nl[k] = rnd.choice((600, 777, 1024)) if k == 6 else (small() if rnd.random() < 0.75 else BIG)
+            emit(G(nl))
+            continue
         r = rnd.random()
         act = sorted(sh.active)
         authed_inactive = [c for c in sh.alive if c in sh.authed and c not in sh.active]
@@ -327,7 +414,7 @@ def gen_random(rnd, length):
             elif d in sh.active:
                 if rs:
                     pending[:] = [p for p in pending if p != (d, c, rs)]
-                if not nr and (c, d, s) not in pending and sum(1 for p in pending if p[0] == c) < limits[5]:
+                if not nr and (c, d, s) not in pending and sum(1 for p in pending if p[0] == c) < sh.lim[5]:
                     pending.append((c, d, s))
         elif r < 0.92:
             if pending and rnd.random() < 0.93:
@@ -340,19 +427,21 @@ def gen_random(rnd, length):
             emit("E%d,%d" % (rnd.choice(act), rnd.choice((1, 2, 3, 4))))
         elif r < 0.985:
             c = rnd.choice([x for x in sh.alive if x in sh.authed])
-            size = msg + rnd.choice((-9, -8, -1, 0, 0, 1, 1, 7, 8, 9, 1000))
+            size = rnd.choice((sh.maxmsg[c], sh.lim[6])) + rnd.choice((-9, -8, -1, 0, 0, 1, 1, 7, 8, 9, 1000))
             if c == 0:
-                size = min(size, msg)
+                size = min(size, sh.maxmsg[0])
+            gone = size > sh.maxmsg[c]
             emit("M%d,%d" % (c, size))
-            if size > msg:
+            if gone:
                 forget(c)
         else:
             emit(rnd.choice(("N", "Q" + hx(rnd.choice(names)))))
-    for n in names:
-        ev.append("Q" + hx(n))
-    ev.append("N")
-    for tg in (1, 2, 3, 4):
-        ev.append("E0,%d" % tg)
+    if not sh.dead:
+        for n in names:
+            ev.append("Q" + hx(n))
+        ev.append("N")
+        for tg in (1, 2, 3, 4):
+            ev.append("E0,%d" % tg)
     return (limits, ev)
 
 
@@ -382,6 +471,9 @@ class Oracle:
         self.nconn = 0
         self.authed = set()
         self.known = []           # recorded deviations seen: (finding id, event index)
+        self.prev = {}            # count of every resource after the previous event
+        self.stale = False        # the limits were reloaded after the number of unregistered connections last changed
+        self.accept_max = {}      # conn -> max_message_size configured when it was accepted
 
     def n_user(self, u):
         return sum(1 for c in self.registered if self.open[c] == u)
@@ -398,26 +490,42 @@ class Oracle:
     def n_calls(self, c):
         return sum(1 for p in self.calls if p[0] == c)
 
-    def over_limit(self):
-        """clause 1 of the property, on the counts the trace has established so far"""
-        bad = []
-        if len(self.registered) > self.lim[0]:
-            bad.append("%d registered connections (max_completed_connections=%d)" % (len(self.registered), self.lim[0]))
+    def counts(self):
+        d = {("registered connections", "max_completed_connections", 0): len(self.registered),
+             ("unauthenticated connections", "max_incomplete_connections", 2): self.n_unauthenticated()}
         for u in set(self.open[c] for c in self.registered):
-            if self.n_user(u) > self.lim[1]:
-                bad.append("%d registered connections of user %d (max_connections_per_user=%d)" % (self.n_user(u), u, self.lim[1]))
-        if self.n_unauthenticated() > self.lim[2]:
-            bad.append("%d unauthenticated connections (max_incomplete_connections=%d)" % (self.n_unauthenticated(), self.lim[2]))
+            d[("registered connections of user %d" % u, "max_connections_per_user", 1)] = self.n_user(u)
         for c in self.registered:
-            if self.held(c) > self.lim[3]:
-                bad.append("connection %d holds %d names, owned or queued, unique name included (max_names_per_connection=%d)" % (c, self.held(c), self.lim[3]))
-            if len(self.rules.get(c, [])) > self.lim[4]:
-                bad.append("connection %d has %d match rules (max_match_rules_per_connection=%d)" % (c, len(self.rules[c]), self.lim[4]))
-            if self.n_calls(c) > self.lim[5]:
-                bad.append("%d calls of connection %d await a reply (max_replies_per_connection=%d)" % (self.n_calls(c), c, self.lim[5]))
+            d[("names held by connection %d (owned or queued, unique name included)" % c, "max_names_per_connection", 3)] = self.held(c)
+            d[("match rules of connection %d" % c, "max_match_rules_per_connection", 4)] = len(self.rules.get(c, []))
+            d[("calls of connection %d awaiting a reply" % c, "max_replies_per_connection", 5)] = self.n_calls(c)
+        return d
+
+    def over_limit(self):
+        """clause 1 of the property on the counts the trace has established so far: no count is above its limit -
+        except that a count which a reload left above a lowered limit (recorded deviation C13-D3) may stay, but not grow"""
+        bad = []
+        now = self.counts()
+        for key, n in now.items():
+            what, lname, idx = key
+            if n > max(self.lim[idx], self.prev.get(key, 0)):
+                bad.append("%d %s (%s=%d)" % (n, what, lname, self.lim[idx]))
+        self.prev = now
         return bad
 
+    def reload(self, limits):
+        old_inc = self.lim[2]
+        self.lim = tuple(limits)
+        if self.lim[2] != old_inc:
+            self.stale = True
+        for key, n in self.counts().items():
+            if n > self.lim[key[2]]:
+                self.known.append("C13-D3")
+                break
+
     def gone(self, c):
+        if c in self.open and c not in self.registered:
+            self.stale = False
         self.open.pop(c, None)
         self.authed.discard(c)
         self.registered.discard(c)
@@ -447,17 +555,23 @@ class Oracle:
                         if p[0] == c and p[2] == s:
                             self.calls.remove(p)
                             break
+        if kind == "G":
+            self.reload([int(x) for x in parts])
+            return bad
         if kind == "C":
             if "accepted" in result:
                 if self.n_incomplete() >= self.lim[2]:
                     bad.append("a connection was accepted while %d not yet registered connections exist (max_incomplete_connections=%d)" % (self.n_incomplete(), self.lim[2]))
                 self.open[self.nconn] = int(parts[0])
+                self.accept_max[self.nconn] = self.lim[6]
                 self.nconn += 1
+                self.stale = False
             elif self.n_incomplete() < self.lim[2]:
                 bad.append("a connection was not accepted although only %d unregistered connections exist (max_incomplete_connections=%d)" % (self.n_incomplete(), self.lim[2]))
             elif self.n_unauthenticated() < self.lim[2]:
                 # the literal reading ("not-yet-authenticated connections"): recorded deviation C13-D1
                 self.known.append("C13-D1")
+            bad += self.over_limit()
             return bad
         if kind in "QNS":
             return bad
@@ -475,6 +589,7 @@ class Oracle:
                 if self.n_user(u) >= self.lim[1]:
                     bad.append("Hello succeeded with %d registered connections of user %d (max_connections_per_user=%d)" % (self.n_user(u), u, self.lim[1]))
                 self.registered.add(c)
+                self.stale = False
             elif refused and c not in self.registered and len(self.registered) < self.lim[0] and self.n_user(u) < self.lim[1]:
                 bad.append("Hello refused with LimitsExceeded below both connection limits")
         elif kind == "D":
@@ -535,10 +650,15 @@ class Oracle:
                         break
         elif kind == "M":
             size = int(parts[1])
-            if size > self.lim[6] and c not in closed:
-                bad.append("a message of %d bytes (max_message_size=%d) did not get its sender disconnected" % (size, self.lim[6]))
-            if size <= self.lim[6] and c in closed:
-                bad.append("a message of %d bytes (max_message_size=%d) got its sender disconnected" % (size, self.lim[6]))
+            own = self.accept_max.get(c, self.lim[6])
+            if (size > self.lim[6]) != (c in closed):
+                if own != self.lim[6] and (size > own) == (c in closed):
+                    # judged by the maximum configured when the connection was accepted: recorded deviation C13-D5
+                    self.known.append("C13-D5")
+                elif c in closed:
+                    bad.append("a message of %d bytes (max_message_size=%d) got its sender disconnected" % (size, self.lim[6]))
+                else:
+                    bad.append("a message of %d bytes (max_message_size=%d) did not get its sender disconnected" % (size, self.lim[6]))
             closed_others = [x for x in closed if x != c]
             if closed_others:
                 bad.append("connections %s were disconnected because of a message of connection %d" % (closed_others, c))
@@ -560,14 +680,8 @@ class Oracle:
 
 
 def all_known():
-    """recorded findings: known-findings.json, plus this package's proposed entries until they are merged there"""
-    known = {k["id"]: k for k in vlib.load_known("C13")}
-    p = os.path.join(vlib.VERIF, "notes", "C13.findings.json")
-    if os.path.exists(p):
-        for k in json.load(open(p)):
-            if k.get("property") == "C13" and k.get("status") == "known":
-                known.setdefault(k["id"], k)
-    return known
+    """recorded findings of this property (known-findings.json only)"""
+    return {k["id"]: k for k in vlib.load_known("C13")}
 
 
 def replay_of(case, step, impl, model):
@@ -616,6 +730,9 @@ def run(ctx):
             if "FAULT" in b:
                 cases[i] = (cases[i][0], cases[i][1][:j], cases[i][2])
                 break
+            if "ABORT" in b:
+                cases[i] = (cases[i][0], cases[i][1][:j + 1], cases[i][2])      # the daemon is gone after this event
+                break
     lines = model_lines(cases)
     model, mcr = vlib.run_lines(info["model_limits"], lines)
     for line, err in mcr:
@@ -630,14 +747,15 @@ def run(ctx):
     validated = 0
     for idx, (case, mline, (ires, ierr, ibad)) in enumerate(zip(cases, model, impl)):
         limits, ev, rt = case
-        if ibad:
-            rep.violation("dbus-daemon crashed / sanitizer report during history %s: %s" % (" ".join(ev)[:300], ibad[-700:]),
-                          dict(replay_of(case, len(ires), ires, None), stderr=ibad))
-            continue
         if mline.startswith(("?", "!")):
             rep.violation("model driver failed on history %s: %s" % (" ".join(ev)[:200], mline[:200]), {"input": lines[idx], "names": "ml/limits/driver.ml"}, found_input=False)
             continue
         mres = [limits_run.group(b.split(",")) if b != "-" else "-" for b in mline.split(" | ")] if ev else []
+        abort_at = next((i for i, b in enumerate(mres) if "ABORT" in b), None)
+        if ibad:
+            rep.violation("dbus-daemon crashed / sanitizer report during history %s: %s" % (" ".join(ev)[:300], ibad[-700:]),
+                          dict(replay_of(case, len(ires), ires, None), stderr=ibad))
+            continue
         # the oracle runs on the implementation's trace
         orc = Oracle(limits)
         complaints = None
@@ -720,19 +838,22 @@ def run(ctx):
         "rule": "corpus (incl. the two refutation witnesses); targeted fill / refuse / free / refill histories for each of the six count limits at values 1-4 (free by release, leaving a queue, "
                 "replacement with DO_NOT_QUEUE, RemoveMatch, reply, callee or caller disconnect, Hello, disconnect, being thrown out), messages of "
                 "max-8..max+9 and 3*max bytes by registered and unregistered senders; authenticated-but-unregistered and unauthenticated connections holding "
-                "incomplete slots; calls carrying a REPLY_SERIAL refused at the limit / as duplicates; one reply-timeout history; random histories of 15-40 events "
+                "incomplete slots; calls carrying a REPLY_SERIAL refused at the limit / as duplicates; configuration reloads in mid-history (ReloadConfig after rewriting the file) "
+                "that put every count at, one below and one above the new limit, raise / lower max_incomplete_connections while accepting is paused / on (incl. the "
+                "daemon's assertion), change max_message_size under old and new connections; one reply-timeout history; random histories of 15-40 events (40% with reloads) "
                 "over up to ~8 connections of 4 users, 2-4 names, 4 match rules, limits drawn from 1-4 or 64, max_message_size 600/777/1024; "
                 "non-trivial = at least one LimitsExceeded refusal, not-accepted connection or bus-initiated disconnection; distinct = distinct (limits, events)",
         "samples": [{"limits": list(cases[i][0]), "events": cases[i][1][:40], "implementation_last": (impl[i][0] or ["-"])[-1]} for i in range(0, len(cases), stepn)][:10],
         "input_distribution": dist, "traces_validated_against_impl": validated, "events_compared": stats["events"],
         "event_kinds": stats["kinds"], "limit_refusals_by_event_kind": stats["refusals"], "connections_not_accepted": stats["not_accepted"],
-        "bus_initiated_disconnections": stats["closed_by_bus"], "noreply_errors": stats["noreply"], "probes": stats["probes"], "recorded_deviations_seen": stats["recorded_deviations"],
+        "bus_initiated_disconnections": stats["closed_by_bus"], "daemon_aborts_predicted_and_seen": stats.get("daemon_aborts_predicted", 0), "noreply_errors": stats["noreply"], "probes": stats["probes"], "recorded_deviations_seen": stats["recorded_deviations"],
         "disagreements_checked": len(rep.violations), "exhaustive": False,
         "explanation": "PROVED (Coq, all histories, all limit values >= 1): the model's counters equal the true counts and stay within the limits (also the number of "
                        "unauthenticated connections); a plain request answered LimitsExceeded / a connection not accepted leaves the model state unchanged (refuted for method calls that "
                        "carry a REPLY_SERIAL: C13-D2, exact effect proved); refused exactly when the demanded resource's true count is at its limit (the literal 'unauthenticated' reading "
                        "refuted: C13-D1); limits influence a step only through refusal; each way of freeing lowers the true count by one and what is not exhausted is not refused; "
-                       "an oversize message removes only its sender.  EXPLORED (correspondence, not proved): that dbus-daemon behaves like the model - messages per socket in order "
+                       "an oversize message removes only its sender.  With reloads in mid-history: no count grows past the limit in force (the literal 'within the configured limits' "
+                       "refuted: C13-D3); the loaders' maxima are stale (C13-D5; the listening flag is re-evaluated by a reload since /repo 577eae6: no assertion abort, accept follows the limits in force - proved).  EXPLORED (correspondence, not proved): that dbus-daemon behaves like the model - messages per socket in order "
                        "after every event, ListQueuedOwners / ListNames probes, signal delivery; the reply timeout (one timed history), the pause of accept() (observed through "
                        "the absence of an answer to AUTH after 8 main-loop round trips), EOF on the oversize sender only.  Not covered: OOM paths, max_incoming_bytes / "
                        "max_outgoing_bytes flow control, activation, file descriptors.",
